@@ -159,6 +159,12 @@ func evalBatchOps(c *RunCtx, prop string, names []string) *Batch {
 				t = gop("c_id", t)
 			}
 		}
+		if r.Intn(8) == 0 {
+			// a negated comparison of EQUAL operands: (not (gt a a)) is (le a a), not (lt a a) - whatever the optimiser does
+			x := []*GT{gvar("i0"), gvar("i1"), gconst(int64(7)), gconst(int64(-9223372036854775808))}[r.Intn(4)]
+			y := &GT{Kind: x.Kind, Val: x.Val, Name: x.Name}
+			t = gop(pick(r, notNames), gop(pick(r, append(append([]string{}, cmpNames...), eqNames...)), x, y))
+		}
 		mask := []int{15, 0, r.Intn(16)}[r.Intn(3)]
 		rc := &RunCfg{Opts: optSubset(mask, r.Bool())}
 		addEval(c, b, &EvalSpec{Tree: t, RC: rc, Bind: opsEvalBind(r), DoEval: true, Tags: []string{fmt.Sprintf("subset:%d", mask), "eval-level"}})
